@@ -268,12 +268,18 @@ func runC12(c *Check) {
 	}
 	// (4) at-rule wrappers and nesting
 	base := []string{".a { color: red; margin: 1px }", ".b { color: blue } .a { color: green }", "div { margin: 1px 2px 3px 4px } p { margin-top: 9px !important }", "& .b { color: red }", ".b & { color: red }", "&:first-child { margin: 3px }", "> span { color: red }", "& { color: red } color: blue",
-		"color: red; & .b { color: blue } margin: 2px", "&.b, & > p { color: red }", "& & { color: red }", ".c { & .b { color: red } }", "@media (min-width: 500px) { color: red; & .b { margin: 4px } }", "span& { color: red }", ":is(&, .b) { color: red }", "+ p { color: red }", "~ p, > span { color: red }"}
+		"color: red; & .b { color: blue } margin: 2px", "&.b, & > p { color: red }", "& & { color: red }", ".c { & .b { color: red } }", "@media (min-width: 500px) { color: red; & .b { margin: 4px } }", "span& { color: red }", ":is(&, .b) { color: red }", "+ p { color: red }", "~ p, > span { color: red }",
+		"@media (min-width: 500px) { color: red }", "@supports (display: grid) { color: red; margin: 3px }", "@layer x { color: red }", "@container (min-width: 100px) { color: red }",
+		"@media screen { @media (min-width: 500px) { color: red } }", "@media (min-width: 500px) { color: red; @supports (display: grid) { color: lime } }", "color: blue; @media screen { color: red } margin: 2px"}
 	for _, w := range c12Wraps {
 		for _, b := range base {
-			if strings.HasPrefix(b, "&") || strings.HasPrefix(b, ">") || strings.HasPrefix(b, "+") || strings.HasPrefix(b, "~") || strings.HasPrefix(b, "color") || strings.HasPrefix(b, ".b &") || strings.HasPrefix(b, "span&") || strings.HasPrefix(b, ":is(&") || strings.HasPrefix(b, "@media") || strings.HasPrefix(b, ".c {") {
+			if strings.HasPrefix(b, "&") || strings.HasPrefix(b, ">") || strings.HasPrefix(b, "+") || strings.HasPrefix(b, "~") || strings.HasPrefix(b, "color") || strings.HasPrefix(b, ".b &") || strings.HasPrefix(b, "span&") || strings.HasPrefix(b, ":is(&") || strings.HasPrefix(b, "@") || strings.HasPrefix(b, ".c {") {
 				add(w.wrap(".a { " + b + " }"))
 				add(w.wrap("div, .a > span { " + b + " }"))
+				// parents with pseudo-elements: "&" cannot represent them, but declarations placed directly inside a
+				// nested conditional group rule still apply to them
+				add(w.wrap(".a, p::before { content: 'x'; " + b + " }"))
+				add(w.wrap(".a::before { content: 'y'; " + b + " }"))
 			} else {
 				add(w.wrap(b))
 				add(w.wrap(b) + " .a { color: orange; margin: 7px }")
